@@ -95,6 +95,10 @@ FUNCTIONS = [
     ('isotp/tools.py', 'FiniteByteGenerator', 'remaining_size'),
     ('isotp/tools.py', 'FiniteByteGenerator', 'depleted'),
     ('isotp/tools.py', 'FiniteByteGenerator', 'total_length'),
+    ('isotp/protocol.py', '', '_python_can_to_isotp_message'),
+    ('isotp/protocol.py', '', '_read_isotp_message'),
+    ('isotp/protocol.py', '', 'python_can_tx_canbus_3plus'),
+    ('isotp/protocol.py', 'CanStack', '_rx_canbus'),
     ('isotp/tools.py', 'Timer', 'is_timed_out'),
     ('isotp/tools.py', 'Timer', 'is_stopped'),
     ('isotp/tools.py', 'Timer', 'stop'),
@@ -200,7 +204,7 @@ EFFECTFUL_CALLEES = {
     'self._start_reception_after_first_frame_if_valid',
     'self.tx_queue.get', 'self.tx_queue.get_nowait', 'self.rx_queue.get', 'self.rx_queue.get_nowait',
     'self.active_send_request.generator.consume',
-    'self.rxfn', 'self._process_rx', 'self._process_tx',
+    'self.rxfn', 'self._process_rx', 'self._process_tx', 'read',
 }
 
 
@@ -460,13 +464,13 @@ def translate(repo):
     for f, cls, fn in FUNCTIONS:
         if f not in trees:
             trees[f] = ast.parse(open(os.path.join(repo, f), encoding='utf-8', newline=None).read())
-        c = find_class(trees[f], cls)
+        c = find_class(trees[f], cls) if cls else trees[f]      # cls == '': a module-level function
         fd = None
         if c is not None:
             for m in c.body:
                 if isinstance(m, ast.FunctionDef) and m.name == fn:
                     fd = m
-        name = lean_name(cls, fn)
+        name = lean_name(cls or 'module', fn)
         if fd is None:
             out.append('/-- %s.%s: NOT FOUND in %s -/' % (cls, fn, f))
             out.append('def %s : PBlock := .cons (.unsupported "function not found") .nil' % name)
